@@ -1,7 +1,7 @@
 import corpus
 
-PLAN_QUICK = [("contrib", ["v1", "v0", "plain"]), ('ctx', ['v1', 'v0', 'plain']), ('conv', ['v1', 'v0', 'plain'])]
-PLAN_THOROUGH = [("contrib", ["v1", "v0", "plain"]), ('ctx', ['v1', 'v0', 'plain', 'lazy1']), ('conv', ['v1', 'v0', 'plain', 'lazy1', 'v2']), ('exc', ['v1', 'v0'])]
+PLAN_QUICK = [('ctxf', ['v1']), ("contrib", ["v1", "v0", "plain"]), ('ctx', ['v1', 'v0', 'plain']), ('conv', ['v1', 'v0', 'plain'])]
+PLAN_THOROUGH = [('ctxf', ['v1', 'v0']), ('contrib', ['v1', 'v0', 'plain']), ('ctx', ['v1', 'v0', 'plain', 'lazy1']), ('conv', ['v1', 'v0', 'plain', 'lazy1']), ('exc', ['v1'])]
 
 
 def units(tier, seed):
